@@ -7,10 +7,13 @@ VARIABLES case, exp
 vars == <<case, exp>>
 I(n) == IntV(FromInt(n))
 S(s) == Str(s)
-Ints == { I(n) : n \in 0..3 }
-Strs == { S(<<>>), S(<<97>>), S(<<98>>), S(<<97, 98>>), S(<<98, 97>>), S(<<65>>) }
+Big == FAMILY = "opsL"          \* the thorough tier: larger operand pools
+Ints == { I(n) : n \in 0..(IF Big THEN 6 ELSE 3) }
+Strs == { S(<<>>), S(<<97>>), S(<<98>>), S(<<97, 98>>), S(<<98, 97>>), S(<<65>>) } \cup (IF Big THEN { S(<<97, 97>>), S(<<66>>), S(<<233>>), S(<<97, 32>>), S(<<32, 97>>), S(<<128049>>) } ELSE {})
 StrLists == { List(<<>>), List(<<S(<<97>>)>>), List(<<S(<<97>>), S(<<98>>)>>), List(<<S(<<98>>), S(<<98>>)>>), List(<<S(<<99>>)>>) }
+            \cup (IF Big THEN { List(<<S(<<98>>), S(<<97>>)>>), List(<<S(<<97>>), S(<<97>>), S(<<98>>)>>), List(<<S(<<>>)>>), List(<<S(<<65>>), S(<<97>>)>>) } ELSE {})
 GlobPats == { S(<<42>>), S(<<97, 42>>), S(<<63>>), S(<<97>>), S(<<42, 97>>), S(<<91, 97, 93>>) }
+            \cup (IF Big THEN { S(<<63, 63>>), S(<<97, 63>>), S(<<91, 33, 97, 93>>), S(<<91, 97, 98, 93, 42>>), S(<<42, 98, 42>>), S(<<>>), S(<<91>>) } ELSE {})
 Now == Join(DaysFromCivil(2021, 6, 1), 0, 0)
 Stamps == { Ts(Add(Now, Mul(FromInt(k), Mega))) : k \in { -86400 * 3, -86400 * 2 - 1, -86400 * 2, -86400 * 2 + 1, -86400, 0, 86400, 86400 * 2 - 1, 86400 * 2, 86400 * 2 + 1, 86400 * 3 } }
 Mk4(op, vt, r, v) == [op |-> op, vt |-> vt, r |-> r, v |-> v]
@@ -34,10 +37,10 @@ RECURSIVE Seqs(_,_)
 Seqs(A, n) == IF n = 0 THEN {<<>>} ELSE LET r == Seqs(A, n - 1) IN r \cup { Append(s, a) : s \in { x \in r : Len(x) = n - 1 }, a \in A }
 Init == case = [op |-> "none"] /\ exp = Null
 Next == /\ case = [op |-> "none"]
-        /\ CASE FAMILY = "ops" -> \E c \in OpsCases : case' = c /\ exp' = Bool(Decision(c.op, c.vt, c.r, c.v, Now))
+        /\ CASE FAMILY \in {"ops", "opsL"} -> \E c \in OpsCases : case' = c /\ exp' = Bool(Decision(c.op, c.vt, c.r, c.v, Now))
              [] FAMILY = "presence" -> \E v \in {"present", "absent"}, res \in {"missing", "null", "value"}, form \in {"key", "tag", "path"} :
                                           case' = [op |-> "presence", value |-> v, res |-> res, form |-> form] /\ exp' = Bool(Presence(v, res))
-             [] FAMILY = "strings" -> \E s \in Seqs(PolicyChars, 3) : case' = [op |-> "literal", s |-> s] /\ exp' = Str(s)
+             [] FAMILY \in {"strings", "strings4"} -> \E s \in Seqs(PolicyChars, IF FAMILY = "strings4" THEN 4 ELSE 3) : case' = [op |-> "literal", s |-> s] /\ exp' = Str(s)
              [] FAMILY = "durations" -> \E n \in {0, 1, 59, 60, 61, 3599, 3600, 3661, 86399, 86400, 90061, 1000000} \cup { 86400 * d : d \in {0, 1, 2, 30, 365} } \cup {43200} :
                                            case' = [op |-> "duration", secs |-> n] /\ exp' = Dur(Mul(FromInt(n), Mega))
 Spec == Init /\ [][Next]_vars
